@@ -204,6 +204,6 @@ def run(prog: Program, rep: Report, tier: str = "quick") -> None:
     rep.floor("R15.5", 2 * n)
     from . import game
 
-    game.add_instances(rep, game.c15_job, [(i, tier) for i in range(n)], "R15.6", 30 * n)
+    game.add_instances(rep, game.c15_job, [(i, tier) for i in range(n)], "R15.6", 45 * n)
     rep.arbitrate({"R15.1", "R15.2", "R15.4", "R15.5"}, "R15.6", "the per-call option means what the model-level setting means")
     rep.supersede({"R15.1", "R15.2", "R15.4", "R15.5"}, "R15.6", "the per-call option means what the model-level setting means")
